@@ -45,7 +45,7 @@ func c05CheckVarInt(v int32, s *c05Scratch) *pbt.Violation {
 	m := copy(s.data[:], want)
 	s.data[m] = c05Sentinel
 	s.rd.Reset(s.data[:m+1])
-	var got pk.VarInt
+	got := pk.VarInt(^v) // the receiver holds another value: decoding must overwrite it
 	rn, err := got.ReadFrom(&s.rd)
 	if err != nil || int32(got) != v || rn != int64(m) || s.rd.Len() != 1 {
 		return pbt.V("varint.roundtrip", "decode returns value and n, rest untouched",
@@ -81,7 +81,7 @@ func c05CheckVarLong(v int64, s *c05Scratch) *pbt.Violation {
 	m := copy(s.data[:], want)
 	s.data[m] = c05Sentinel
 	s.rd.Reset(s.data[:m+1])
-	var got pk.VarLong
+	got := pk.VarLong(^v) // the receiver holds another value: decoding must overwrite it
 	rn, err := got.ReadFrom(&s.rd)
 	if err != nil || int64(got) != v || rn != int64(m) || s.rd.Len() != 1 {
 		return pbt.V("varlong.roundtrip", "decode returns value and n, rest untouched",
@@ -113,11 +113,11 @@ func c05CheckDecode(c C05Dec) *pbt.Violation {
 	var err error
 	pv, stack := pbt.Try(func() {
 		if c.Long {
-			var v pk.VarLong
+			v := pk.VarLong(-1) // a used receiver
 			n, err = v.ReadFrom(r)
 			val = uint64(v)
 		} else {
-			var v pk.VarInt
+			v := pk.VarInt(-1)
 			n, err = v.ReadFrom(r)
 			val = uint64(uint32(v))
 		}
